@@ -5,7 +5,7 @@
 use crate::ir::*;
 use crate::model::{Ctl, Model};
 use crate::obs;
-use crate::seams::{SimReader, SimWriter, WriterStats};
+use crate::seams::{self, SimBufReader, SimReader, SimWriter, WriterStats};
 use crate::val::*;
 use noulith::{evaluate, initialize, parse, verif_hooks, Env, NErr, Obj, Rc, RefCell, TopEnv};
 use serde::{Deserialize, Serialize};
@@ -69,6 +69,17 @@ pub struct RunCfg {
     pub eintr_every: u32,
     pub refuse_with_zero: bool,
     pub writer_seed: u64,
+    /// input seam (S3): the byte script and its fault plan
+    #[serde(default)]
+    pub input: Vec<u8>,
+    #[serde(default)]
+    pub in_one_byte: bool,
+    #[serde(default)]
+    pub in_eintr_every: u32,
+    #[serde(default)]
+    pub in_err_at: Option<usize>,
+    #[serde(default)]
+    pub in_rewind: bool,
 }
 
 impl Default for RunCfg {
@@ -83,6 +94,11 @@ impl Default for RunCfg {
             eintr_every: 0,
             refuse_with_zero: false,
             writer_seed: 0,
+            input: Vec::new(),
+            in_one_byte: false,
+            in_eintr_every: 0,
+            in_err_at: None,
+            in_rewind: false,
         }
     }
 }
@@ -256,6 +272,7 @@ fn fnv(h: &mut u64, s: &str) {
 pub struct Session {
     pub env: Rc<RefCell<Env>>,
     pub writer: SimWriter,
+    pub reader: SimReader,
     pub model: Model,
     pub user_vars: Vec<String>,
 }
@@ -289,14 +306,18 @@ impl Session {
             w.eintr_every = cfg.eintr_every;
             w.refuse_with_zero = cfg.refuse_with_zero;
         }
+        let reader = SimReader::new(cfg.input.clone());
+        {
+            let mut r = reader.0.lock().unwrap();
+            r.one_byte = cfg.in_one_byte;
+            r.eintr_every = cfg.in_eintr_every;
+            r.err_at = cfg.in_err_at;
+            r.rewind = cfg.in_rewind;
+        }
         let mut env = Env::new(
             TopEnv {
                 backrefs: Vec::new(),
-                input: Box::new(SimReader {
-                    data: Vec::new(),
-                    pos: 0,
-                    one_byte: false,
-                }),
+                input: Box::new(SimBufReader::new(reader.clone())),
                 output: Box::new(writer.clone()),
             },
             cfg.allow_redecl,
@@ -306,7 +327,13 @@ impl Session {
         Session {
             env: Rc::new(RefCell::new(env)),
             writer,
-            model: Model::new(cfg.allow_redecl),
+            reader,
+            model: {
+                let mut m = Model::new(cfg.allow_redecl);
+                m.input = cfg.input.clone();
+                m.in_err_at = cfg.in_err_at;
+                m
+            },
             user_vars: Vec::new(),
         }
     }
@@ -375,7 +402,9 @@ impl Session {
         match Env::try_borrow_get_var(&self.env, name) {
             Ok(o) => {
                 IN_EVAL.with(|f| f.set(true));
+                seams::set_observing(true);
                 let c = catch_unwind(AssertUnwindSafe(|| obs::canon_obj(&o)));
+                seams::set_observing(false);
                 IN_EVAL.with(|f| f.set(false));
                 match c {
                     Ok(c) => Some(c),
@@ -396,7 +425,9 @@ pub fn classify_impl(r: Result<Result<Obj, NErr>, Box<dyn std::any::Any + Send>>
         Ok(Ok(o)) => {
             // materialising a lazy result runs interpreter code too
             IN_EVAL.with(|f| f.set(true));
+            seams::set_observing(true);
             let c = catch_unwind(AssertUnwindSafe(|| obs::canon_obj(&o)));
+            seams::set_observing(false);
             IN_EVAL.with(|f| f.set(false));
             match c {
                 Ok(c) => (Outcome::Value(c), Some(o)),
@@ -486,6 +517,15 @@ pub fn execute(script: &Script) -> RunResult {
     stats.writer = Some((&sess.writer.0.lock().unwrap().stats).into());
     for (k, v) in sess.model.probes.iter() {
         stats.probes.insert(k.to_string(), *v);
+    }
+    {
+        let r = sess.reader.0.lock().unwrap();
+        if !r.data.is_empty() {
+            stats.probes.insert("input_read_calls".into(), r.stats.fill_calls);
+            stats.probes.insert("input_eintr_fired".into(), r.stats.eintr);
+            stats.probes.insert("input_read_error_fired".into(), r.stats.errors);
+            stats.probes.insert("input_eof_reported".into(), r.stats.eof_seen);
+        }
     }
     // leave the thread-local seams disarmed
     verif_hooks::set_fuel(None);
@@ -591,6 +631,9 @@ fn execute_inner(
                 let w = sess.writer.0.lock().unwrap();
                 sess.model.out = w.accepted.clone();
                 sess.model.out_budget = w.budget;
+                let r = sess.reader.0.lock().unwrap();
+                sess.model.in_pos = r.pos;
+                sess.model.in_err_at = r.err_at;
             }
             let names = sess.model.struct_names();
             for name in st.write_set.iter() {
@@ -672,6 +715,9 @@ fn execute_inner(
                 let w = sess.writer.0.lock().unwrap();
                 sess.model.out = w.accepted.clone();
                 sess.model.out_budget = w.budget;
+                let r = sess.reader.0.lock().unwrap();
+                sess.model.in_pos = r.pos;
+                sess.model.in_err_at = r.err_at;
             }
             for name in st.write_set.iter() {
                 match Env::try_borrow_get_var(&sess.env, name) {
@@ -809,6 +855,20 @@ fn compare_state(sess: &mut Session, idx: usize, src: &str) -> Result<u64, RunEn
         }));
     }
     fnv(&mut h, &format!("{}", w.accepted.len()));
+    let r = sess.reader.0.lock().unwrap();
+    if !r.rewind && (r.pos != sess.model.in_pos || r.err_at != sess.model.in_err_at) {
+        return Err(RunEnd::Violation(Violation {
+            kind: ViolationKind::State,
+            stmt_index: idx,
+            source: src.to_string(),
+            expected: format!("input consumed up to byte {} (pending read error: {:?})", sess.model.in_pos, sess.model.in_err_at),
+            observed: format!("input consumed up to byte {} (pending read error: {:?})", r.pos, r.err_at),
+            detail: String::new(),
+        }));
+    }
+    if !r.data.is_empty() {
+        fnv(&mut h, &format!("in{}", r.pos));
+    }
     Ok(h)
 }
 
